@@ -260,6 +260,95 @@ Lemma axis_pad_mixed_large_differs :
   axis_pad 0 (@BWrap Z) BSym 5 l <> ideal BWrap BSym.
 Proof. repeat split; vm_compute; discriminate. Qed.
 
+(* ------------------------------------------------------------------ exact description of the oversize mixed cases *)
+(* away from the mirrored side the faithful sequence is the per-side rule for EVERY pad size and mode pair *)
+Lemma axis_srcf_right_part {K} (m0 m1 : bmode K) n p i :
+  1 <= n -> 0 <= p -> p <= i < n + 2 * p -> is_wrap m0 = false ->
+  axis_srcf m0 m1 n p i = opt_of_src (ext1 m0 m1 n (i - p)).
+Proof.
+  intros Hn Hp Hi Hw.
+  remember (i - p) as j eqn:Ej.
+  assert (Hj : 0 <= j < n + p) by lia.
+  unfold axis_srcf, stage, ext1.
+  destruct m0, m1; cbn [is_wrap orb npmode_of] in *; try discriminate;
+    rewrite ?Z.sub_0_r, ?Z.add_0_r, <- ?Ej.
+  all: destruct (Z_lt_le_dec j n) as [Jn|Jn].
+  all: repeat ltb_step; repeat src_step; cbn [opt_of_src].
+  all: rewrite ?Z.sub_0_r, ?Z.add_0_r.
+  all: try reflexivity.
+  all: repeat sym_step; repeat ltb_step; repeat src_step; repeat sym_step; cbn [opt_of_src].
+  all: try reflexivity.
+  all: try (f_equal; lia).
+Qed.
+
+(* symmetric on the left: the left pad mirrors the ALREADY RIGHT-EXTENDED array about the left boundary face *)
+Lemma stage_sym_mirror lb p (fb : Z -> option Z) i : 0 <= p <= lb -> 0 <= i < p ->
+  stage NpSym lb p fb i = stage NpSym lb p fb (2 * p - 1 - i).
+Proof.
+  intros Hl Hi. unfold stage.
+  rewrite (np_src_out NpSym lb (i - p)) by lia. cbn [out_rule].
+  rewrite sym_idx_lo by lia.
+  rewrite (np_src_in NpSym lb (2 * p - 1 - i - p)) by lia.
+  replace (-1 - (i - p)) with (2 * p - 1 - i - p) by lia. reflexivity.
+Qed.
+
+Lemma axis_srcf_sym_left_mirror {K} (m1 : bmode K) n p i :
+  1 <= n -> 0 <= p -> 0 <= i < p ->
+  axis_srcf (@BSym K) m1 n p i = axis_srcf (@BSym K) m1 n p (2 * p - 1 - i).
+Proof.
+  intros Hn Hp Hi. unfold axis_srcf. cbn [is_wrap orb npmode_of].
+  apply stage_sym_mirror; [|exact Hi]. destruct (is_wrap m1); lia.
+Qed.
+
+Theorem axis_pad_sym_left_oversize {K A} (c d : A) (m1 : bmode K) p l :
+  1 <= Z.of_nat (length l) -> 0 <= p ->
+  (forall i, 0 <= i < p ->
+     nth (Z.to_nat i) (axis_pad c (@BSym K) m1 p l) d = nth (Z.to_nat (2 * p - 1 - i)) (axis_pad c (@BSym K) m1 p l) d) /\
+  (forall i, p <= i < Z.of_nat (length l) + 2 * p ->
+     nth (Z.to_nat i) (axis_pad c (@BSym K) m1 p l) d = reads c l (ext1 (@BSym K) m1 (Z.of_nat (length l)) (i - p))).
+Proof.
+  intros Hn Hp. set (n := Z.of_nat (length l)) in *. rewrite axis_pad_via by assumption. fold n. unfold via. split.
+  - intros i Hi. rewrite !nth_map_zrange by lia. rewrite axis_srcf_sym_left_mirror by lia. reflexivity.
+  - intros i Hi. rewrite nth_map_zrange by lia. rewrite axis_srcf_right_part by (try reflexivity; lia).
+    destruct (ext1 BSym m1 n (i - p)); reflexivity.
+Qed.
+
+(* wrap on the left, symmetric on the right: the right pad mirrors the ALREADY LEFT-WRAPPED array *)
+Lemma axis_srcf_wrap_sym {K} n p i : 1 <= n -> 0 <= p -> 0 <= i < n + 2 * p ->
+  axis_srcf (@BWrap K) BSym n p i =
+  if i <? n + p then opt_of_src (ext1 (@BWrap K) BSym n (i - p))
+  else axis_srcf (@BWrap K) BSym n p (2 * (n + p) - 1 - i).
+Proof.
+  intros Hn Hp Hi. unfold axis_srcf. cbn [is_wrap orb npmode_of]. unfold stage, ext1.
+  rewrite ?Z.sub_0_r, ?Z.add_0_r.
+  destruct (Z.ltb_spec i (n + p)) as [Hlt|Hge].
+  - rewrite (np_src_in NpSym (n + p) i) by lia.
+    destruct (Z_lt_le_dec (i - p) 0) as [J0|J0].
+    + rewrite (np_src_out NpWrap n (i - p)) by lia. cbn [out_rule].
+      destruct (Z.ltb_spec (i - p) 0); [|lia]. reflexivity.
+    + rewrite (np_src_in NpWrap n (i - p)) by lia.
+      destruct (Z.ltb_spec (i - p) 0); [lia|]. destruct (Z.leb_spec n (i - p)); [lia|]. reflexivity.
+  - rewrite (np_src_out NpSym (n + p) i) by lia. cbn [out_rule].
+    rewrite sym_idx_hi by lia.
+    rewrite (np_src_in NpSym (n + p) (2 * (n + p) - 1 - i)) by lia. reflexivity.
+Qed.
+
+Theorem axis_pad_wrap_sym_oversize {A} (c d : A) p l :
+  1 <= Z.of_nat (length l) -> 0 <= p ->
+  let n := Z.of_nat (length l) in
+  (forall i, 0 <= i < n + p ->
+     nth (Z.to_nat i) (axis_pad c (@BWrap Z) BSym p l) d = reads c l (ext1 (@BWrap Z) BSym n (i - p))) /\
+  (forall i, n + p <= i < n + 2 * p ->
+     nth (Z.to_nat i) (axis_pad c (@BWrap Z) BSym p l) d =
+     nth (Z.to_nat (2 * (n + p) - 1 - i)) (axis_pad c (@BWrap Z) BSym p l) d).
+Proof.
+  intros Hn Hp n. rewrite axis_pad_via by assumption. fold n. unfold via. split.
+  - intros i Hi. rewrite nth_map_zrange by lia. rewrite axis_srcf_wrap_sym by lia.
+    destruct (Z.ltb_spec i (n + p)); [|lia]. destruct (ext1 BWrap BSym n (i - p)); reflexivity.
+  - intros i Hi. rewrite !nth_map_zrange by lia. rewrite axis_srcf_wrap_sym by lia.
+    destruct (Z.ltb_spec i (n + p)); [lia|]. reflexivity.
+Qed.
+
 (* ------------------------------------------------------------------ lift to the 3-D index array *)
 Lemma nth_map_in {A B} (f : A -> B) l k d d' : (k < length l)%nat -> nth k (map f l) d = f (nth k l d').
 Proof.
